@@ -38,7 +38,18 @@ if os.path.exists(bp):
     brow.append("%d variants; %d leave every check silent." % (len(res), silent))
     bt = "\n".join(brow)
 
+st = ["| id | rule instances decided | reviewed sites used | open known findings | violations | quick check wall time |", "|----|-----|----|----|----|----|"]
+for i in range(1, 21):
+    pid = "C%02d" % i
+    ep = os.path.join(V, "evidence", pid + ".json")
+    if not os.path.exists(ep):
+        continue
+    e = json.load(open(ep))
+    c = e["coverage"]
+    st.append("| %s | %d | %s | %s | %d | %.0f s |" % (pid, c["obligations"], len(c.get("reviewed_sites_used", [])) or "–", len(c.get("known_findings_matched", [])) or "–", e.get("violations", 0), e.get("wall_s", 0)))
+stt = "\n".join(st)
 d = open(os.path.join(V, "DESIGN.md")).read()
+d = re.sub(r"<!-- BEGIN:STATUS -->.*?<!-- END:STATUS -->", lambda m: "<!-- BEGIN:STATUS -->\n" + stt + "\n<!-- END:STATUS -->", d, flags=re.S)
 d = re.sub(r"<!-- BEGIN:MATRIX -->.*?<!-- END:MATRIX -->", lambda m: "<!-- BEGIN:MATRIX -->\n" + mt + "\n<!-- END:MATRIX -->", d, flags=re.S)
 d = re.sub(r"<!-- BEGIN:BENIGN -->.*?<!-- END:BENIGN -->", lambda m: "<!-- BEGIN:BENIGN -->\n" + bt + "\n<!-- END:BENIGN -->", d, flags=re.S)
 open(os.path.join(V, "DESIGN.md"), "w").write(d)
